@@ -19,12 +19,22 @@ async def aio_fetch(x: int) -> int:
     return x
 
 
+CALLS: list = []
+
+
 def takes_int(x: int) -> int:
+    CALLS.append(("takes_int", x))
     return x
 
 
 def takes_two(a: int, b: int) -> int:
+    CALLS.append(("takes_two", a, b))
     return a + b
+
+
+def noisy(tag: str) -> str:
+    CALLS.append(("noisy", tag))
+    return tag
 
 
 def takes_many(a: int, b: int, c: int, d: int, e: int = 0) -> int:
@@ -107,6 +117,16 @@ ATOMS = {
     "comp_twice": dict(codes=["unused_variable"], lines=["print([None for cv_{n} in range(2)], [None for cv_{n} in range(3)])"], simple=True, fix=True),
     "chained_assign": dict(codes=[], lines=["ca_{n} = cb_{n} = takes_int({n})"], simple=True),
     "pair_codes": dict(codes=[], render="pair", simple=False),
+    # pre-existing ignore comments of various forms around a diagnostic
+    "pre_other_code_above": dict(codes=["undefined_name"], lines=["# static analysis: ignore[incompatible_call]", "print(undefined_{n})"], simple=False),
+    "pre_trailing_other": dict(codes=["undefined_name"], lines=["print(undefined_{n})  # static analysis: ignore[incompatible_call]"], simple=True),
+    "pre_same_code_two_above": dict(codes=[], lines=["# static analysis: ignore[undefined_name]", "# unrelated comment {n}", "print(undefined_{n})"], simple=False),
+    "pre_bare_above": dict(codes=[], lines=["# static analysis: ignore", "print(undefined_{n}, takes_int(\"s{n}\"))"], simple=False),
+    "marker_in_string": dict(codes=[], lines=["print(\"# static analysis: ignore[undefined_name] is the marker {n}\", undefined_{n})"], simple=True),
+    "marker_in_docstring": dict(codes=["undefined_name"], lines=["doc_{n} = \"\"\"usage:", "    # static analysis: ignore[undefined_name]", "\"\"\"", "print(doc_{n}, undefined_{n})"], simple=False, raw_continuation=True),
+    # fixes whose operands have side effects: order and multiplicity of the calls must survive
+    "fstring_side_effects": dict(codes=[], enable=["use_fstrings"], lines=["na_{n} = noisy(\"a{n}\")", "nb_{n} = noisy(\"b{n}\")", "print(\"%s-%s-%s\" % (nb_{n}, na_{n}, nb_{n}))"], simple=False),
+    "many_pos_side_effects": dict(codes=["too_many_positional_args"], enable=["too_many_positional_args"], lines=["print(takes_many(takes_int({n}), takes_int(2), takes_two(3, 4), 5))"], simple=True, fix=True, needs_max_pos=True),
     "walrus_unused": dict(codes=["unused_variable"], lines=["wx_{n} = (wy_{n} := p) + {n}", "print(wx_{n})"], simple=False, fix=True),
     "walrus_in_call": dict(codes=["unused_variable"], lines=["print(takes_int(wz_{n} := {n}))"], simple=True),
     "decorated_inner_fstring": dict(codes=["use_fstrings"], enable=["use_fstrings"], lines=["@passthrough", "@passthrough", "def deco_inner_{n}(a: str = \"%s!\" % q) -> str:", "    return a", "print(deco_inner_{n})"], simple=False, fix=True),
@@ -189,7 +209,7 @@ ASYNQ_ATOMS = {
 
 # atoms that hit a recorded, unrepaired defect of pyanalyze (KNOWN_FINDINGS.json); they are
 # generated only when explicitly enabled so that the rest of the search is not drowned
-KNOWN_DEFECT_ATOMS = {"backslash", "with_multi", "ml_fstring_undef"}
+KNOWN_DEFECT_ATOMS = {"backslash", "with_multi", "ml_fstring_undef", "marker_in_docstring"}
 
 SKELETONS = ["only_stmt_of_else", "only_stmt_of_except", "only_stmt_of_finally", "class_body_method", "docstring_fn", "asynq_fn", "missing_asynq_fn", "async_def", "plain", "only_stmt_of_if", "for_body", "try_except", "with_block", "one_line_if", "semicolon",
              "method", "nested", "after_comment", "after_decorator", "else_branch", "while_body"]
